@@ -148,6 +148,20 @@ def _aged(u, vs, es, L):
     return WithObserver(ask(), ask)
 
 
+_SUSPENDED = []
+
+
+def _while_suspended(genfn):
+    """neighbors() asked in the body of a `for v in ibft(...)` loop: the traversal generator is suspended (and stays
+    alive) while the answer is handed out and edited"""
+    def get(u, vs, es, L):
+        g = genfn(u, vs[0])
+        next(g)
+        _SUSPENDED[:] = [g]
+        return helpers.neighbors(vs[0], helpers.DIR_SENS_FORWARD, helpers.LNK_UNKNOWN_NEIGHBOR)
+    return get
+
+
 # exchange points handing a collection OUT: name -> function(world) -> the collection
 OUT = [
     ("Vertex.links", lambda u, vs, es, L: vs[0].links),
@@ -166,6 +180,8 @@ OUT = [
     ("dft_recursive", lambda u, vs, es, L: depthfirst.dft_recursive(u, vs[0])),
     ("dft_iterative", lambda u, vs, es, L: depthfirst.dft_iterative(u, vs[0])),
     ("neighbors re-asked after 299 other filters", _aged),
+    ("neighbors while an ibft generator is suspended", _while_suspended(breadthfirst.ibft)),
+    ("neighbors while an idft_recursive generator is suspended", _while_suspended(depthfirst.idft_recursive)),
     ("unlink(destroy=False)", None),     # handled below: it mutates the graph
 ]
 
